@@ -1,5 +1,6 @@
 //! C13 - diagnostics do not depend on how the same program is written.
 
+use crate::ast::{AluOp, Ins, Program, Reg, SP};
 use super::common::*;
 use crate::gen::{self, Profile, ALL_INJECT};
 use crate::print::{print, Style};
@@ -32,13 +33,141 @@ fn single_feature_styles() -> Vec<(&'static str, Style)> {
     ]
 }
 
+/// One statement of the `li` family: a load of a 32-bit constant (printed either as `li` or as its
+/// expansion) or any other line.
+enum Stmt {
+    Li(Reg, i32),
+    I(Ins),
+    L(&'static str),
+}
+
+/// Programs in which big constants matter for the diagnostics: frames of 4 KiB and more allocated and
+/// freed through a register, an ecall number computed from two big constants, a stack slot addressed
+/// through a computed offset.
+fn li_family(rng: &mut Rng) -> Vec<Stmt> {
+    let big = *rng.pick(&[4096, 8192, 4096 + 16, 0x12340, 2048, 6000, 0x7fff_f000u32 as i32, -4096, 0x1000_0000]);
+    let frame = *rng.pick(&[4096, 8192, 4112, 2048, 12288]);
+    let free_matches = rng.chance(0.8);
+    let mut v = vec![Stmt::L("main"), Stmt::I(Ins::li(10, 3)), Stmt::I(Ins::call("work"))];
+    // an ecall number computed from two big constants (10 = exit, or something else)
+    let delta = if rng.chance(0.7) { 10 } else { 11 };
+    v.push(Stmt::Li(5, big.wrapping_add(delta)));
+    v.push(Stmt::Li(6, big));
+    v.push(Stmt::I(Ins::Alu { op: AluOp::Sub, rd: 17, rs1: 5, rs2: 6 }));
+    v.push(Stmt::I(Ins::Ecall));
+    v.push(Stmt::I(Ins::li(17, 10)));
+    v.push(Stmt::I(Ins::Ecall));
+    v.push(Stmt::L("work"));
+    v.push(Stmt::Li(5, frame));
+    v.push(Stmt::I(Ins::Alu { op: AluOp::Sub, rd: SP, rs1: SP, rs2: 5 }));
+    v.push(Stmt::I(Ins::sw(8, 0, SP)));
+    v.push(Stmt::I(Ins::addi(8, 10, 1)));
+    v.push(Stmt::I(Ins::mv(10, 8)));
+    v.push(Stmt::I(Ins::lw(8, 0, SP)));
+    if rng.chance(0.5) {
+        v.push(Stmt::Li(6, if free_matches { frame } else { frame + 16 }));
+        v.push(Stmt::I(Ins::Alu { op: AluOp::Add, rd: SP, rs1: SP, rs2: 6 }));
+    } else {
+        // freed in steps of at most 2032
+        let mut left = if free_matches { frame } else { frame - 16 };
+        while left > 0 {
+            let step = left.min(2032);
+            v.push(Stmt::I(Ins::addi(SP, SP, step)));
+            left -= step;
+        }
+    }
+    v.push(Stmt::I(Ins::ret()));
+    v
+}
+
+fn li_expansion_case(rng: &mut Rng, acc: &mut Acc) {
+    let stmts = li_family(rng);
+    // build one variant: `expand(k)` says whether the k-th Li is written as lui (+ addi)
+    let build = |expand: &dyn Fn(usize) -> bool| -> (Program, Vec<usize>) {
+        let mut p = Program::default();
+        let mut owner: Vec<usize> = Vec::new(); // instruction index -> statement index
+        let mut n_li = 0;
+        for (si, st) in stmts.iter().enumerate() {
+            match st {
+                Stmt::L(l) => p.label(l),
+                Stmt::I(i) => {
+                    p.push(i.clone());
+                    owner.push(si);
+                }
+                Stmt::Li(rd, k) => {
+                    if expand(n_li) && !(-2048..2048).contains(k) {
+                        let hi = (k.wrapping_add(0x800) as u32) >> 12;
+                        let lo = k.wrapping_sub((hi << 12) as i32);
+                        p.push(Ins::Lui { rd: *rd, imm: hi as i32 });
+                        owner.push(si);
+                        if lo != 0 {
+                            p.push(Ins::addi(*rd, *rd, lo));
+                            owner.push(si);
+                        }
+                    } else {
+                        p.push(Ins::li(*rd, *k));
+                        owner.push(si);
+                    }
+                    n_li += 1;
+                }
+            }
+        }
+        (p, owner)
+    };
+    let keys = |p: &Program, owner: &[usize]| -> Result<std::collections::BTreeMap<(String, usize), usize>, String> {
+        let pr = print(p, &Style::base(), &mut Rng::new(1));
+        let a = analyze(&pr.text).map_err(|e| format!("{} {}", e.site(), e.msg))?;
+        let mut m = std::collections::BTreeMap::new();
+        for d in a.all_diags() {
+            let st = pr.line_to_ins.get(&d.span.start.line).and_then(|k| owner.get(*k)).copied().unwrap_or(usize::MAX);
+            // (an unused-value warning inside an expansion is the same statement's warning)
+            *m.entry((if d.code.is_empty() { d.title.clone() } else { d.code.clone() }, st)).or_insert(0) += 1;
+        }
+        Ok(m)
+    };
+    let (p0, o0) = build(&|_| false);
+    let mask = rng.next_u32();
+    let variants: [(&str, Box<dyn Fn(usize) -> bool>); 2] = [("all-expanded", Box::new(|_| true)), ("some-expanded", Box::new(move |k| mask >> (k % 32) & 1 == 1))];
+    let Ok(k0) = keys(&p0, &o0) else { return };
+    for (name, f) in &variants {
+        let (p1, o1) = build(f.as_ref());
+        acc.evaluations += 1;
+        let t0 = print(&p0, &Style::base(), &mut Rng::new(1)).text;
+        let t1 = print(&p1, &Style::base(), &mut Rng::new(1)).text;
+        if t0 == t1 {
+            continue;
+        }
+        acc.count("li_expansion_pairs", 1);
+        acc.nontrivial.insert(hash64(&t1));
+        match keys(&p1, &o1) {
+            Err(e) => acc.violation("C13|li-expansion|panic".to_string(), format!("the expanded spelling makes the analysis panic: {e}"), json!({"base": t0, "rewritten": t1})),
+            Ok(k1) => {
+                // multiplicities inside one statement may differ (two instructions instead of one): compare presence
+                let a: std::collections::BTreeSet<_> = k0.keys().cloned().collect();
+                let b: std::collections::BTreeSet<_> = k1.keys().cloned().collect();
+                if a != b {
+                    let d = a.symmetric_difference(&b).next().cloned().unwrap_or_default();
+                    let dir = if b.contains(&d) { "gained" } else { "lost" };
+                    acc.violation(
+                        format!("C13|li-expansion|{dir}|{}", d.0),
+                        format!("`li` written as lui/addi ({name}) changes the diagnostics: `{}` on statement {} is {dir}", d.0, d.1),
+                        json!({"rewrite": name, "base": t0, "rewritten": t1}),
+                    );
+                } else {
+                    acc.count("pairs_equal", 1);
+                }
+            }
+        }
+    }
+}
+
 pub fn run(ctx: &Ctx) -> i32 {
     let mut rep = Report::new(
         ctx,
         "each program (conforming, with one planted violation of any class, or from the wild profile) is printed in the base-ISA style and again under \
          18 single-feature rewrites and several random compositions (spacing, tabs, optional/doubled commas, comments, blank lines, mnemonic case, numeric/ABI/fp \
          register names, dec/hex/bin/char immediates, label placement, omitted zero offsets, every pseudo-instruction vs its official expansion); the multisets of \
-         (diagnostic kind, instruction index, register concerned) must be equal. distinct_nontrivial = distinct (program, rewrite) pairs compared whose base program had >= 1 diagnostic or >= 30 instructions",
+         (diagnostic kind, instruction index, register concerned) must be equal; a family of programs in which 32-bit constants decide the diagnostics (big frames, computed ecall numbers) is compared between `li` and its expansion lui/addi by (kind, logical statement). distinct_nontrivial = distinct (program, rewrite) pairs compared whose base program had >= 1 diagnostic or >= 30 instructions",
     );
     rep.assume("register names are case-sensitive in the tool and upper-case registers are not among the rewrites the property lists");
     rep.assume("a program whose diagnostics differ between two analyses of the identical text is counted as nondeterministic (C10) and not judged here");
@@ -123,6 +252,15 @@ pub fn run(ctx: &Ctx) -> i32 {
         acc
     });
     rep.acc.merge(acc);
+    // ---- `li rd, K` against its official expansion `lui rd, hi` (+ `addi rd, rd, lo`): two instructions
+    // instead of one, so diagnostics are identified by the logical statement they belong to
+    let mut acc = Acc::new();
+    let mut rng = Rng::derive(ctx.seed, 13_500, 0);
+    for _ in 0..ctx.tier.pick(150, 3000) {
+        li_expansion_case(&mut rng, &mut acc);
+    }
+    rep.acc.merge(acc);
+    rep.require("li_expansion_pairs", 100);
     rep.require("pairs_equal", 500);
     rep.require("base_diagnostics", 50);
     rep.finish()
